@@ -144,6 +144,12 @@ func TestVF_C18_Paths(t *testing.T) {
 	idx := 0
 	for _, r := range roots {
 		leg, _ := vfLegacyFor(vfshared.NewMessage(r.Desc))
+		// the legacy counterpart of a message is the legacy message of the same name: a table entry pointing at another
+		// (similarly named) legacy type decodes the wire bytes with the wrong layout and repairs nothing under this root
+		if ln, cn := reflect.TypeOf(leg).Elem().Name(), string(r.Desc.Name()); ln != cn {
+			c := c18Case{Root: r.Name, Depth: 1, Bad: c18Hex("\xff")}
+			c18Fail(t, st, part, c, fmt.Errorf("%s is down-converted to the legacy type %s instead of its own legacy counterpart: invalid UTF-8 in its failure messages cannot be repaired", r.Name, ln))
+		}
 		paths := vfFailurePaths(reflect.TypeOf(leg).Elem(), maxRepeat)
 		if len(paths) == 0 {
 			continue
